@@ -864,7 +864,7 @@ impl Adv {
 }
 
 pub fn run(tier: Tier, out: &mut Output) {
-    let depth = tier.pick(8, 10);
+    let depth = tier.pick(8, 11);
     let wall = tier.pick(25.0, 280.0);
     for cfg in CONFIGS.iter().copied() {
         let lim = Limits::depth(depth).wall(wall);
